@@ -533,6 +533,10 @@ func c08GraphUnit() *Unit {
 				"mid.yml": "version: '3'\nincludes:\n  lib:\n    taskfile: ./s.yml\n", "s.yml": leaf("s")}, "one:lib:t", []string{"T=s:t PWD=proj IV=one"}, 0},
 			{"twice-nested-two", map[string]string{"Taskfile.yml": "version: '3'\nincludes:\n  one:\n    taskfile: ./mid.yml\n    vars: {IV: one}\n  two:\n    taskfile: ./mid.yml\n    vars: {IV: two}\n",
 				"mid.yml": "version: '3'\nincludes:\n  lib:\n    taskfile: ./s.yml\n", "s.yml": leaf("s")}, "two:lib:t", []string{"T=s:t PWD=proj IV=two"}, 0},
+			{"same-file-twice-dirs-dynvar-1", map[string]string{"Taskfile.yml": "version: '3'\nincludes:\n  n1:\n    taskfile: ./s.yml\n    dir: ./d1\n  n2:\n    taskfile: ./s.yml\n    dir: ./d2\n",
+				"s.yml": "version: '3'\nvars:\n  W: {sh: 'basename \"$PWD\"'}\ntasks:\n  t:\n    cmds:\n      - printf '%s\\n' \"T=s:t PWD=$(basename \"$PWD\") IV={{.W}}\"\n", "d1/.keep": "", "d2/.keep": ""}, "n1:t", []string{"T=s:t PWD=d1 IV=d1"}, 0},
+			{"same-file-twice-dirs-dynvar-2", map[string]string{"Taskfile.yml": "version: '3'\nincludes:\n  n1:\n    taskfile: ./s.yml\n    dir: ./d1\n  n2:\n    taskfile: ./s.yml\n    dir: ./d2\n",
+				"s.yml": "version: '3'\nvars:\n  W: {sh: 'basename \"$PWD\"'}\ntasks:\n  t:\n    cmds:\n      - printf '%s\\n' \"T=s:t PWD=$(basename \"$PWD\") IV={{.W}}\"\n", "d1/.keep": "", "d2/.keep": ""}, "n2:t", []string{"T=s:t PWD=d2 IV=d2"}, 0},
 			{"cycle-2", map[string]string{"Taskfile.yml": "version: '3'\nincludes:\n  a: ./a.yml\n", "a.yml": "version: '3'\nincludes:\n  r: ./Taskfile.yml\n"}, "x", nil, 110},
 			{"cycle-3", map[string]string{"Taskfile.yml": "version: '3'\nincludes:\n  a: ./a.yml\n", "a.yml": "version: '3'\nincludes:\n  b: ./b.yml\n", "b.yml": "version: '3'\nincludes:\n  a: ./a.yml\n"}, "x", nil, 110},
 			{"self-include", map[string]string{"Taskfile.yml": "version: '3'\nincludes:\n  me: ./Taskfile.yml\n"}, "x", nil, 110},
